@@ -20,11 +20,10 @@ CONTRACTS = (CT.WrapBucket, CT.TdmaSchedule, CT.TdmaScheduleSet, CT.TdmaSchedAdv
 
 
 def build_c(run):
-    tu = frontend.parse_file(CT.TDMA, "fw")
     for con in CONTRACTS:
-        K.verify(run, ID, tu, con)
-    ring_lemmas(run)
-    set_lemmas(run)
+        K.sect(run, con.name, lambda con=con: K.verify(run, ID, frontend.parse_file(CT.TDMA, "fw"), con))
+    K.sect(run, "ring_lemmas", ring_lemmas, run)
+    K.sect(run, "set_lemmas", set_lemmas, run)
     run.assume("callbacks called by tdma_sched_execute report success (>= 0) and do not modify l1s.tdma_sched "
                "(the statement's `callbacks that report success`; items scheduling further items from inside a callback are outside the contract)")
     run.assume("protocol: each TDMA frame runs tdma_sched_execute() then tdma_sched_advance() (call site l1_sync in sync.c)")
@@ -274,7 +273,7 @@ def replay_c(payload):
     w = payload["inputs"]
     func = w.get("func")
     if func == "lemma":
-        return {"confirmed": False, "observed": "spec-level lemma", "expected": "n/a"}
+        return {"confirmed": False, "error": "spec-level lemma: there is no native run that could refute or confirm it", "observed": "spec-level lemma", "expected": "n/a"}
     cur = w.get("cur", 0) % RV.DEPTH
     num_in = w.get("num") if isinstance(w.get("num"), list) else None
     num = [min(max(x, 0), RV.CAP) for x in (num_in or [0] * RV.DEPTH)]
